@@ -478,6 +478,36 @@ def g_special_programs(ctx, rng, i):
         except TensorComputationError:
             pass
         d.calculate()
+        # the outer product of a tensor with index numbers >= 8
+        small = Tensor(gen.coords(rng, (2, 2), 3, "int"), covariant=[int(rng.integers(0, 2))])
+        t.tensor_product(small)
+        small.tensor_product(t)
+        # a rejected edge leaves the diagram as it was: the next evaluation is that of the diagram before the rejected call
+        m = Tensor(gen.coords(rng, (2, 3), 3, "int"), covariant=[0])
+        v3 = Tensor(gen.coords(rng, (3,), 3, "int"), covariant=False)
+        v2 = Tensor(gen.coords(rng, (2,), 3, "int"), covariant=False)
+        for variant in range(3):
+            d = TensorDiagram()
+            if variant == 0:
+                d.add_node(m)
+                d.add_node(v3)
+                bad = (m, v3)  # dimensions 2 and 3
+            elif variant == 1:
+                d.add_edge(m, v2)
+                bad = (m, v2)  # no covariant index of m left
+            else:
+                d.add_node(m)
+                bad = (m, v3)  # the target is not yet part of the diagram
+            before = d.calculate()
+            try:
+                d.add_edge(*bad)
+                continue
+            except TensorComputationError:
+                pass
+            after = d.calculate()
+            same = before.array.shape == after.array.shape and np.array_equal(before.array, after.array) and before.tensor_shape == after.tensor_shape
+            ctx.judge("diagram.calculate", bool(same), [m, v3, v2], what=f"a rejected add_edge changed the diagram: shape {before.array.shape} before, {after.array.shape} after the rejected call",
+                      op="TensorDiagram.add_edge (rejected)", feat={"variant": variant}, nontrivial=True)
     elif kind == 1:
         n = [3, 4, 5, 6][(i // 3) % 4]
         e1, e2 = LeviCivitaTensor(n), LeviCivitaTensor(n, False)
